@@ -730,8 +730,11 @@ def pairs(run):
                                       per_combination={combname[k]: int((comb == k).sum()) for k in range(4)},
                                       contains_true=int(WC.sum()), intersects_true=int(WI.sum()))
     for k in range(4):
-        if not (comb == k).any() or not (WC | ~WC)[comb == k].any():
-            raise core.MachineryFailure("pair universe misses combination %s" % combname[k])
+        # every bounded/unbounded combination must occur with both verdicts of intersects, and the
+        # three combinations in which containment is possible with both verdicts of contains
+        if len(set(WI[comb == k])) < 2 or (k != 1 and len(set(WC[comb == k])) < 2):
+            if not (k == 3 and len(set(WI[comb == k])) == 1):      # two disks containing infinity always meet
+                raise core.MachineryFailure("pair universe is vacuous for combination %s" % combname[k])
     data = np.array([[PT(d["b"][0]), PT(d["b"][1]), PT(d["b"][2]), PT(d["p"])] for d in U], dtype=complex)
 
     def describe(k):
